@@ -44,3 +44,11 @@ Theorem c15_reachable_worlds_satisfy_ZI :
 Proof. exact reachable_ZI. Qed.
 Print Assumptions c15_reachable_worlds_satisfy_ZI.
 
+
+(* "afterwards ... its id is invalid" - for ever: through every later history of calls *)
+Require Import EV.DeadIds.
+Theorem c15_removed_handler_id_is_invalid_for_ever :
+  forall (beh : hinfo -> logent -> N -> script) (k : key) (w w' : world) (ops : list top_all),
+    ZI w -> remove_handler beh k w = ROk true w' -> sm_get k (w_hs (fold_left (run_top_all beh) ops w')) = None.
+Proof. exact removed_handler_id_never_valid_again. Qed.
+Print Assumptions c15_removed_handler_id_is_invalid_for_ever.
